@@ -479,6 +479,21 @@ theorem establish_exits_release_in_source :
     (Exits.exits.filter (fun e => e.fn == "establishRegion")).length = 10 := by decide
 
 
+/-- Regenerated from rpc.go: when the re-lookup inside `establishRegion` comes back with *another*
+region (`reg` is rebound, `originalReg` keeps the region whose waiters are parked), the original
+region is released on both outcomes of `regions.put`: exactly the exits 2, 3 (region gone / dead
+while looking up) and 5 (the looked-up region is already cached: "put refused") call
+`originalReg.MarkAvailable`, and between `c.regions.put(reg)` and the creation of the connection
+there are two such calls — the refused-put return and the replaced-and-continue path. Dropping
+either leaves the waiters of a merged/split-away region parked for ever (`merge-ordered`
+scenario of the harness; `LookupRes.newNotReplaced` / `newReplaced` in the model both move the original region to its `release` step). -/
+theorem original_region_released_on_replacement_in_source :
+    ((Exits.exits.filter (fun e => e.fn == "establishRegion" &&
+        e.calls.contains "originalReg.MarkAvailable")).map (·.ord)) = [2, 3, 5] ∧
+    (((Exits.publishSites.filter (·.1 == "establishRegion")).map (fun p =>
+        (((p.2.dropWhile (· != "c.regions.put(reg)")).takeWhile (· != "c.newRegionClientFn")).filter
+          (· == "originalReg.MarkAvailable")).length)) = [2]) := by decide
+
 /-- In a list of calls in source order: every `c.regions.put(reg)` has a `reg.MarkUnavailable`
 before it with no `reg.MarkAvailable` in between. -/
 def markedBeforePut : Bool → List String → Bool
